@@ -9,10 +9,13 @@ import (
 // yamlDoc returns a document: fully symbolic (shape 0) or one of the
 // part-concrete shapes the property names.
 func vxYamlDoc(n int) string {
-	switch vxrt.Choice("yaml-shape", vxrt.Param("shapes", 7)) {
+	switch vxrt.Choice("yaml-shape", vxrt.Param("shapes", 8)) {
+	case 0: // documents the YAML library is known to reject (the oracle is free either way; only
+		// the answer the real library gives is confirmed natively)
+		return []string{"[", "a: b: c", "key: [1, 2", "{"}[vxrt.Choice("broken-document", 4)]
 	case 6: // line-structured around the storage tokens
 		return vxStructText("doc", 2)
-	case 0:
+	case 7: // arbitrary bytes
 		return vxrt.Text("doc", vxrt.Len("doc-len", 0, n))
 	case 1: // multi-document stream
 		return "a: " + vxrt.Text("v1", 1) + "\n---\nb: " + vxrt.Text("v2", 1) + vxFinalNL()
@@ -46,6 +49,23 @@ func H_C18_yaml() {
 	var in any = doc
 	if asBytes {
 		in = []byte(doc)
+	}
+	if vxrt.Bool("slot-already-holds-this-text") {
+		// the slot was recorded earlier through MatchSnapshot with the very same text (a test being
+		// migrated to MatchYAML): a document the library rejects is still rejected
+		vxWriteFile(dir+"/f.snap", vxFrame("TestA - 1", vxEscapeRef(doc)))
+		before := vxDumpDir(dir)
+		tm := vxNewT("TestA")
+		c.MatchYAML(tm, in)
+		tm.end()
+		vxrt.Assert(len(tm.logs) == 0 && vxrt.Eq(vxDumpDir(dir), before), "C18:replay-writes-nothing")
+		// what the library says about the document decides, not what happens to be stored: a
+		// call for a fresh slot with the same document gets the same verdict
+		t0 := vxNewT("TestFresh")
+		c.MatchYAML(t0, in)
+		t0.end()
+		vxrt.Assert((len(tm.errors) > 0) == (len(t0.errors) > 0), "C18:invalid-fails-once")
+		return
 	}
 	empty := vxDumpDir(dir)
 	t1 := vxNewT("TestA")
